@@ -1,1 +1,175 @@
-// replay hooks for src/transaction.rs (included as a child module `verif_replay` of that file)
+// Bounded-check driver for src/transaction.rs (child module `verif_replay`).
+// C08: runs the REAL Transaction (on a real Tree in a temp dir) on every program up to the bound and
+// compares every return value, and the state a fresh transaction sees afterwards, with an executable
+// form of the property: read-your-writes = the latest pending write (issue order) over the snapshot;
+// rollback_to_savepoint restores exactly the pending writes of set_savepoint time; rollback discards
+// everything; commit applies the surviving writes in issue order; modes reject what they do not permit.
+// Bound (stated): programs of <= 4 operations from {set, set_at(ts 100|200), delete, soft_delete,
+// replace, get} x keys {a (present in the snapshot), b (absent)} + {set_savepoint,
+// rollback_to_savepoint}, each ended by commit or rollback; read-write mode exhaustively, read-only and
+// write-only modes for programs of length <= 2.
+use super::*;
+use crate::{Mode, TreeBuilder};
+
+#[derive(Clone, Copy, Debug, PartialEq)]
+enum Op {
+	Set(u8),
+	SetAt(u8, u64),
+	Delete(u8),
+	SoftDelete(u8),
+	Replace(u8),
+	Get(u8),
+	Savepoint,
+	RollbackSp,
+}
+
+fn alphabet() -> Vec<Op> {
+	let mut v = Vec::new();
+	for k in 0..2u8 {
+		v.push(Op::Set(k));
+		v.push(Op::SetAt(k, 100));
+		v.push(Op::SetAt(k, 200));
+		v.push(Op::Delete(k));
+		v.push(Op::SoftDelete(k));
+		v.push(Op::Replace(k));
+		v.push(Op::Get(k));
+	}
+	v.push(Op::Savepoint);
+	v.push(Op::RollbackSp);
+	v
+}
+
+/// executable contract: pending writes in issue order + a stack of saved pending lists
+#[derive(Clone, Default)]
+struct Model {
+	pending: Vec<(u8, Option<Vec<u8>>)>,
+	saved: Vec<Vec<(u8, Option<Vec<u8>>)>>,
+}
+impl Model {
+	fn read(&self, k: u8, base: &[Option<Vec<u8>>; 2]) -> Option<Vec<u8>> {
+		match self.pending.iter().rev().find(|(kk, _)| *kk == k) {
+			Some((_, v)) => v.clone(),
+			None => base[k as usize].clone(),
+		}
+	}
+}
+
+fn keyname(prog: u64, k: u8) -> Vec<u8> {
+	format!("p{prog:08}-{}", if k == 0 { "a" } else { "b" }).into_bytes()
+}
+
+#[tokio::test(flavor = "multi_thread", worker_threads = 2)]
+async fn writeset_enum() {
+	let dir = tempdir::TempDir::new("verif_c08").unwrap();
+	let tree = TreeBuilder::new().with_path(dir.path().to_path_buf()).build().unwrap();
+	let alpha = alphabet();
+	let mut cases = 0u64;
+	let mut nontrivial = 0u64;
+	let mut failures: Vec<String> = Vec::new();
+	let mut samples: Vec<String> = Vec::new();
+	let mut prog_id = 0u64;
+	for mode in [Mode::ReadWrite, Mode::ReadOnly, Mode::WriteOnly] {
+		let maxlen = if mode == Mode::ReadWrite { 4 } else { 2 };
+		for len in 1..=maxlen {
+			let total = alpha.len().pow(len as u32);
+			for code in 0..total {
+				let mut ops = Vec::new();
+				let mut x = code;
+				for _ in 0..len {
+					ops.push(alpha[x % alpha.len()]);
+					x /= alpha.len();
+				}
+				for &commit in &[true, false] {
+					prog_id += 1;
+					cases += 1;
+					// snapshot state: key a present, key b absent
+					{
+						let mut t = tree.begin().unwrap();
+						t.set(keyname(prog_id, 0), b"base".to_vec()).unwrap();
+						t.commit().await.unwrap();
+					}
+					let base = [Some(b"base".to_vec()), None];
+					let mut tx = tree.begin_with_mode(mode).unwrap();
+					let mut m = Model::default();
+					let mut bad: Option<String> = None;
+					let mut wrote = 0;
+					for (i, op) in ops.iter().enumerate() {
+						let val = format!("v{i}").into_bytes();
+						let can_write = mode != Mode::ReadOnly;
+						let can_read = mode != Mode::WriteOnly;
+						let (res_ok, expect_ok): (bool, bool) = match *op {
+							Op::Set(k) => (tx.set(keyname(prog_id, k), val.clone()).is_ok(), can_write),
+							Op::SetAt(k, ts) => (tx.set_at(keyname(prog_id, k), val.clone(), ts).is_ok(), can_write),
+							Op::Delete(k) => (tx.delete(keyname(prog_id, k)).is_ok(), can_write),
+							Op::SoftDelete(k) => (tx.soft_delete(keyname(prog_id, k)).is_ok(), can_write),
+							Op::Replace(k) => (tx.replace(keyname(prog_id, k), val.clone()).is_ok(), can_write),
+							Op::Get(k) => {
+								let r = tx.get(keyname(prog_id, k));
+								if can_read {
+									let want = m.read(k, &base);
+									match &r {
+										Ok(got) if *got == want => {}
+										other => bad = Some(format!("op {i} get({k}) returned {:?}, contract says {:?}", other.as_ref().map_err(|e| e.to_string()), want)),
+									}
+								}
+								(r.is_ok(), can_read)
+							}
+							Op::Savepoint => (tx.set_savepoint().is_ok(), can_write),
+							Op::RollbackSp => (tx.rollback_to_savepoint().is_ok(), can_write && !m.saved.is_empty()),
+						};
+						if res_ok != expect_ok && bad.is_none() {
+							bad = Some(format!("op {i} {:?} returned ok={res_ok}, contract says ok={expect_ok}", op));
+						}
+						if expect_ok {
+							match *op {
+								Op::Set(k) | Op::SetAt(k, _) | Op::Replace(k) => { m.pending.push((k, Some(val))); wrote += 1; }
+								Op::Delete(k) | Op::SoftDelete(k) => { m.pending.push((k, None)); wrote += 1; }
+								Op::Savepoint => m.saved.push(m.pending.clone()),
+								Op::RollbackSp => m.pending = m.saved.pop().unwrap(),
+								Op::Get(_) => {}
+							}
+						}
+					}
+					// end of transaction
+					let fin_ok = if commit { tx.commit().await.is_ok() } else { tx.rollback(); true };
+					if commit && !fin_ok && mode != Mode::ReadOnly && bad.is_none() {
+						bad = Some("commit failed".to_string());
+					}
+					// closed transactions reject everything
+					if fin_ok && tx.get(keyname(prog_id, 0)).is_ok() && mode != Mode::WriteOnly && bad.is_none() {
+						bad = Some("get on a closed transaction succeeded".to_string());
+					}
+					drop(tx);
+					// what others see afterwards
+					let after = tree.begin().unwrap();
+					for k in 0..2u8 {
+						let want = if commit && mode != Mode::ReadOnly { m.read(k, &base) } else { base[k as usize].clone() };
+						let got = after.get(keyname(prog_id, k)).unwrap();
+						if got != want && bad.is_none() {
+							bad = Some(format!("after {}: key {k} reads {:?}, contract says {:?}", if commit { "commit" } else { "rollback" }, got, want));
+						}
+					}
+					if wrote >= 2 && ops.iter().any(|o| matches!(o, Op::Savepoint | Op::RollbackSp | Op::Get(_))) {
+						nontrivial += 1;
+					}
+					if samples.len() < 3 && len == 4 && wrote >= 2 && ops.contains(&Op::RollbackSp) {
+						samples.push(format!("\"{:?} mode={:?} end={}\"", ops, mode, if commit { "commit" } else { "rollback" }));
+					}
+					if let Some(b) = bad {
+						if failures.len() < 5 {
+							failures.push(format!("{{\"mode\":\"{:?}\",\"program\":\"{:?}\",\"end\":\"{}\",\"mismatch\":{:?}}}", mode, ops, if commit { "commit" } else { "rollback" }, b));
+						}
+					}
+				}
+			}
+		}
+	}
+	println!(
+		"REPLAY-RESULT {{\"driver\":\"transaction::writeset_enum\",\"cases\":{},\"distinct_nontrivial\":{},\"samples\":[{}],\"failures\":[{}]}}",
+		cases,
+		nontrivial,
+		samples.join(","),
+		failures.join(",")
+	);
+	assert!(failures.is_empty());
+}
